@@ -54,6 +54,11 @@ def gen_cases(tier, seed):
             if c['bootstrap_iteration'] == 1:
                 c['bootstrap_iteration'] = 20
         c['with_hdf5'] = True
+        if i % 2 == 0:
+            # cells that are constant (and non-zero) across all genes:
+            # their correlation with anything is undefined
+            c['flat_cells'] = 8
+            c['n_cells'] = max(c['n_cells'], 8)
         if i % 9 == 4:
             c['bootstrap_iteration'] = int(rng.choice([256, 300, 1000]))
             c['n_cells'] = min(c['n_cells'], 8)
